@@ -183,6 +183,45 @@ def check_decorator(program: Program, run: Run) -> None:
                     where=where, rule="R4")
 
 
+def check_immutable_switch(program: Program, run: Run) -> None:
+    """R4b: the wrapper copies unless `getattr(self, "immutable", True)` is falsy.  The switch must only be turned off by
+    the caller (a constructor argument whose default is True); a class attribute or an unconditional assignment that
+    sets it to a falsy constant makes every @builder method of that class rewrite its receiver."""
+    n = 0
+    for c in program.all_classes():
+        has_builders = any(f.is_builder for k in c.mro for f in k.methods.values())
+        if not has_builders:
+            continue
+        n += 1
+        bad = None
+        for k in c.mro:
+            v = k.class_attrs.get("immutable")
+            if isinstance(v, ast.Constant) and not v.value:
+                bad = (k, f"class attribute `immutable = {v.value!r}` on {k.qualname}", getattr(v, "lineno", None))
+                break
+            for f in k.methods.values():
+                if not f.params:
+                    continue
+                for node in ast.walk(f.node):
+                    if isinstance(node, ast.Assign) and isinstance(node.value, ast.Constant) and not node.value.value:
+                        for t in node.targets:
+                            if isinstance(t, ast.Attribute) and t.attr == "immutable" and isinstance(t.value, ast.Name) and t.value.id == f.params[0]:
+                                bad = (k, f"`{ast.unparse(node)}` in {f.qualname}", node.lineno)
+                init = k.methods.get("__init__")
+                if f is init:
+                    for a, d in zip(reversed(f.node.args.args), reversed(f.node.args.defaults)):
+                        if a.arg == "immutable" and isinstance(d, ast.Constant) and not d.value:
+                            bad = (k, f"constructor default `immutable={d.value!r}` in {f.qualname}", f.node.lineno)
+            if bad:
+                break
+        run.ob("C01/R4b the immutable switch defaults to copying for every class with @builder methods", c.qualname, bad is None, detail=bad[1] if bad else "")
+        if bad and not any(fd.key == f"C01/immutable-off:{bad[0].qualname}" for fd in run.findings):
+            run.finding(f"C01/immutable-off:{bad[0].qualname}", f"{bad[1]}: the @builder wrapper then applies every builder method (replace_table included) to the receiver itself, "
+                        "so the receiver and every object sharing it are rewritten in place", where=f"{bad[0].module.relpath}:{bad[2]}" if bad[2] else "", rule="R4b")
+    if n < 10:
+        raise AnalysisError(f"instance count below floor: classes with builder methods {n}")
+
+
 # --------------------------------------------------------------------------- main rule
 def builders_of(c: ClassInfo) -> list[FuncInfo]:
     names = []
@@ -208,6 +247,7 @@ def check(program: Program, run: Run) -> None:
     run.rule("R1 shared-mutate: MUTATE self.a requires a in recopied(__copy__ of receiver class) or a rebound fresh in the activation")
     run.rule("R2 deep-mutate: any write through self.a[...].b / self.a.b of a shared object is a violation")
     run.rule("R3 arg-write: WRITE param.x allowed only for x == alias under an 'alias is None' guard")
+    run.rule("R4b the immutable switch the decorator consults is only turned off by the caller: no class attribute / assignment / constructor default sets it to a falsy constant")
     run.rule("R4 decorator shape: copy.copy under immutable default True; method applied to the copy; copy returned for None")
     run.rule("R5 copy protocol: root __copy__ starts from full __dict__; overrides call super().__copy__()")
     run.assumptions += [
@@ -216,6 +256,7 @@ def check(program: Program, run: Run) -> None:
     ]
     eng = Effects(program)
     check_decorator(program, run)
+    check_immutable_switch(program, run)
 
     classes = [c for c in program.all_classes() if builders_of(c)]
     nb_defs = sum(1 for f in program.all_functions() if f.is_builder)
